@@ -476,7 +476,7 @@ func main() {
 	r := vf.NewRun("C04", "exploration",
 		"each case: a universe of <=25 raw keys (storage keys 0x05.. of 1..6 bytes over {00,01,61,fe,ff} sharing prefixes, plus a few keys of other data-entry prefixes), a random part of it pre-populated in a memory LevelDB, then a history of 20..250 ops (tx put/delete/commit/reset/new, direct overlay put/delete, block commit keep/Reset/fresh, block discard, write-set DeepClone, extra iterations) on the real CacheDB->OverlayDB->store stack with the full oracle after every op; distinct by (universe, op sequence); non-trivial when >=2 state-changing ops")
 	rng := vf.NewRNG(vf.Seed())
-	nCases := vf.N(2000, 36000)
+	nCases := vf.N(1500, 24000)
 	vf.Parallel(nCases, runtime.NumCPU(), func(i int) { runCase(r, rng.Sub(uint64(i)), i) })
 
 	for _, lv := range []string{kvl.LvCache, kvl.LvOverlay} {
